@@ -17,7 +17,7 @@ def expected_step(prior, cur, X, sw, eps, relevance, alpha, squared=True):
     """One MAP iteration as the property states it, from the statistics of the current machine."""
     st = cur.acc_stats(X)
     n = np.asarray(st.n, dtype=float)
-    a = n / (n + relevance) if relevance is not None else np.full_like(n, alpha)
+    a = n / (n + relevance) if relevance is not None else np.broadcast_to(np.asarray(alpha, dtype=float), n.shape).copy()
     um, uv, uw = sw
     w, mu, var = np.array(cur.weights), np.array(cur.means), np.array(cur.variances)
     pm, pv, pw = np.asarray(prior.means), np.asarray(prior.variances), np.asarray(prior.weights)
@@ -53,12 +53,20 @@ def run(chk):
             mu[-1] = mu[-1] + 1e4 * s
         relevance = r.choice([None, 1e-6, 0.5, 4.0, 1e3, 1e6])
         alpha = r.choice([0.0, 0.3, 0.5, 1.0])
+        if i % 6 == 1:
+            relevance = None        # fixed-ratio adaptation in at least every sixth case (with weight updating in half of them)
+        alpha_array = relevance is None and i % 3 == 1
+        if alpha_array:
+            # the fixed ratio given per component (a caller-owned array with unequal entries)
+            alpha = np.array([r.choice([0.0, 0.1, 0.5, 0.9]) for _ in range(C)])
+            if len(set(alpha.tolist())) == 1 and C >= 2:
+                alpha[0] = 0.35
         K = r.choice([1, 1, 2, 3])
         thr = r.choice([None, 1e-4 * float(s.min()) ** 2])
         chunks = None if i % 3 else gen.random_composition(r, len(X), 3)
         cfg = dict(w=None, mu=None, var=None, thr=None, sw=sw, eps=eps, cap=K, cthr=None,
                    map=dict(relevance=relevance, alpha=alpha, prior=(w, mu, var, thr)))
-        ctx = {"switches(means,vars,weights)": list(sw), "relevance": relevance, "alpha": alpha, "iterations": K,
+        ctx = {"switches(means,vars,weights)": list(sw), "relevance": relevance, "alpha": alpha.tolist() if alpha_array else alpha, "iterations": K,
                "prior_w": hexlist(w), "prior_mu": hexlist(mu), "prior_var": hexlist(var), "shape": [C, D], "X": hexlist(X),
                "starved_component": starve}
         # ---- oracle: iterate the implementation one EM step at a time against the stated blend
@@ -137,6 +145,17 @@ def run(chk):
                     and np.allclose(late.weights, ref.weights, rtol=1e-12, atol=0)):
                 chk.fail("a machine re-configured for MAP adaptation after construction (via %s) adapts differently from one constructed with the same settings" % how,
                          dict(ctx, reconfigured_via=how, got_means=hexlist(late.means), want_means=hexlist(ref.means)))
+        # ---- initialisation = a copy of the prior, also when asked for explicitly on a machine that has moved away from it
+        if i % 4 == 3:
+            mi, pri = gt.build_machine(dict(cfg, cap=1))
+            mi.fit(X)
+            mi.initialize_gaussians()
+            chk.count(1, key=("re-initialise",))
+            if not (np.array_equal(np.asarray(mi.means), np.asarray(pri.means)) and np.array_equal(np.asarray(mi.variances), np.asarray(pri.variances))
+                    and np.array_equal(np.asarray(mi.weights), np.asarray(pri.weights))):
+                chk.fail("initialize_gaussians() on an adapted MAP machine does not restore the prior's weights, means and variances", ctx)
+            if np.shares_memory(np.asarray(mi.means), np.asarray(pri.means)):
+                chk.fail("after initialize_gaussians() the MAP machine's means share memory with the prior's", ctx)
         # prior untouched
         if not (np.array_equal(prior.means, p0.means) and np.array_equal(prior.variances, p0.variances) and np.array_equal(prior.weights, p0.weights)):
             chk.fail("the prior (UBM) was modified by MAP training", ctx)
@@ -156,11 +175,12 @@ def run(chk):
             if not np.allclose(np.asarray(ms.means)[sel], ml[sel], rtol=1e-6, atol=1e-8 * float(np.abs(X).max() + 1)):
                 chk.fail("relevance 1e-12 does not return the ML mean estimate", ctx)
         # ---- correspondence case
-        c = gt.make_case(cfg, X, chunks)
-        if c["well_conditioned"]:
-            terms.append(c["term"])
+        if not alpha_array:         # the model takes a scalar ratio; per-component ratios are covered by the step-by-step oracle above
+            c = gt.make_case(cfg, X, chunks)
+            if c["well_conditioned"]:
+                terms.append(c["term"])
         if i < 2:
-            chk.sample({"entry": "fit(trainer=map)", "switches": list(sw), "relevance": relevance, "alpha": alpha, "iterations": K,
+            chk.sample({"entry": "fit(trainer=map)", "switches": list(sw), "relevance": relevance, "alpha": alpha.tolist() if alpha_array else alpha, "iterations": K,
                         "N": len(X), "C": C, "D": D, "starved": starve})
     bad, info = cq.run_cases("C05", gt.IMPORTS, "fit_case", "fit_check", terms, shard=60)
     chk.correspondence("GMMMachine.fit(trainer='map') ~ MF.fit (faithful or repaired variance blend)", len(terms), bad, info)
